@@ -197,43 +197,163 @@ def d3_degree(ctx):
         raise AnchorMissing("no amplitude comparison found under compute_spike_features (value-name table out of date)")
 
 
+ALL3 = frozenset({"LT", "EQ", "GT"})
+
+
+def _rel(du, e, at, peak, depth=0):
+    """Abstract value of a (waveform x time) mask in terms of the position of t relative to the peak index p of its row:
+    a frozenset subset of {LT, EQ, GT} for a boolean mask, or a dict {LT: n, EQ: n, GT: n} for an integer array that is constant on the three
+    stretches (the running count of a one-hot mask).  None when the expression is not of that kind."""
+    if depth > 12 or e is None:
+        return None
+    rec = lambda x, a=at: _rel(du, x, a, peak, depth + 1)
+    if isinstance(e, ast.Name):
+        ds = du.strong_reaching(e.id, at)
+        if not ds:
+            return None
+        d0 = [d for d in ds if d.kind == "assign" and d.value is not None and d.unpack_index is None]
+        if len(d0) != len(ds) or len(d0) != 1:
+            return None
+        base = _rel(du, d0[0].value, d0[0].stmt, peak, depth + 1)
+        # one-hot: zeros(..) then a single store [rows, p] = 1 / True
+        v = d0[0].value
+        if isinstance(v, ast.Call) and call_name(v) in ("zeros", "zeros_like"):
+            stores = [m for m in du.defs if m.var == e.id and m.kind == "mutate" and du.cfg.reachable(d0[0].node, m.node) and du.cfg.reachable(m.node, du.cfg.node_for(at))]
+            if len(stores) == 1 and isinstance(stores[0].stmt, ast.Assign):
+                st = stores[0].stmt
+                t0 = st.targets[0]
+                if isinstance(t0, ast.Subscript) and isinstance(t0.slice, ast.Tuple) and len(t0.slice.elts) == 2 and const_value(st.value) in ((True, 1), (True, True), (True, 1.0)) \
+                        and "arange" in src(expand_name(du, t0.slice.elts[0], st)) and _is_peak(du, t0.slice.elts[1], st, peak):
+                    return frozenset({"EQ"})
+            return None
+        # later stores at [rows, peak] = constant rewrite the value on the peak sample only
+        muts = [m for m in du.defs if m.var == e.id and m.kind == "mutate" and du.cfg.reachable(d0[0].node, m.node) and du.cfg.reachable(m.node, du.cfg.node_for(at))]
+        for m in muts:
+            st = m.stmt
+            t0 = st.targets[0] if isinstance(st, ast.Assign) else None
+            okc, c = const_value(st.value) if isinstance(st, ast.Assign) else (False, None)
+            if not (isinstance(t0, ast.Subscript) and isinstance(t0.slice, ast.Tuple) and len(t0.slice.elts) == 2 and okc
+                    and "arange" in src(expand_name(du, t0.slice.elts[0], st)) and _is_peak(du, t0.slice.elts[1], st, peak)):
+                return None
+            if isinstance(base, dict):
+                base = dict(base)
+                base["EQ"] = c
+            elif isinstance(base, frozenset):
+                base = (base | {"EQ"}) if c else (base - {"EQ"})
+            else:
+                return None
+        return base
+    if isinstance(e, ast.Call):
+        nm = call_name(e)
+        if nm == "cumsum" and e.args:
+            ax = kwarg(e, "axis") or (e.args[1] if len(e.args) > 1 else None)
+            m = rec(e.args[0])
+            if ax is not None and const_value(ax) in ((True, 1), (True, -1)) and m == frozenset({"EQ"}):
+                return {"LT": 0, "EQ": 1, "GT": 1}
+            return None
+        if nm in ("logical_not", "invert"):
+            m = rec(e.args[0]) if e.args else None
+            return ALL3 - m if isinstance(m, frozenset) else None
+        if nm in ("logical_and", "logical_or") and len(e.args) >= 2:
+            a, b = rec(e.args[0]), rec(e.args[1])
+            if isinstance(a, frozenset) and isinstance(b, frozenset):
+                return a & b if nm == "logical_and" else a | b
+            return None
+        if nm in ("astype", "copy") and isinstance(e.func, ast.Attribute):
+            return rec(e.func.value)
+        return None
+    if isinstance(e, ast.UnaryOp) and isinstance(e.op, (ast.Invert, ast.Not)):
+        m = rec(e.operand)
+        return ALL3 - m if isinstance(m, frozenset) else None
+    if isinstance(e, ast.BinOp) and isinstance(e.op, (ast.BitAnd, ast.BitOr)):
+        a, b = rec(e.left), rec(e.right)
+        if isinstance(a, frozenset) and isinstance(b, frozenset):
+            return a & b if isinstance(e.op, ast.BitAnd) else a | b
+        return None
+    if isinstance(e, ast.Compare) and len(e.ops) == 1:
+        l, r, op = e.left, e.comparators[0], e.ops[0]
+        import operator as _o
+        fn = {ast.Eq: _o.eq, ast.NotEq: _o.ne, ast.Lt: _o.lt, ast.LtE: _o.le, ast.Gt: _o.gt, ast.GtE: _o.ge}.get(type(op))
+        if fn is None:
+            return None
+        lv = rec(l)
+        ok, c = const_value(r)
+        if isinstance(lv, dict) and ok and isinstance(c, (int, float)):
+            return frozenset(k for k, n in lv.items() if fn(n, c))
+        # time index against the peak index: arange(T)[None, :] OP p[:, None]
+        le, re_ = expand_name(du, l, at), expand_name(du, r, at)
+        if "arange" in src(le) and _is_peak(du, r, at, peak):
+            return frozenset(k for k, n in (("LT", -1), ("EQ", 0), ("GT", 1)) if fn(n, 0))
+        if "arange" in src(re_) and _is_peak(du, l, at, peak):
+            return frozenset(k for k, n in (("LT", -1), ("EQ", 0), ("GT", 1)) if fn(0, n))
+        return None
+    if isinstance(e, ast.Subscript) and isinstance(e.value, ast.Call) and call_name(e.value) == "where":
+        return None
+    return None
+
+
+def _is_peak(du, e, at, peak):
+    v = e
+    for _ in range(4):
+        if isinstance(v, ast.Subscript):   # p[:, None]
+            v = v.value
+            continue
+        break
+    if loc_name(v) == peak:
+        return True
+    x = expand_name(du, v, at)
+    return x is not v and _is_peak(du, x, at, peak)
+
+
 def _keep_sets(fi, du):
-    """For arr_pre_post: {returned variable: relation of the kept samples t to the peak index p}, from either the cumulative-mask form
-    (NaN stored where mask == 0 / == 1, mask = cumsum of a one-hot at p along time) or the broadcast form np.where(t OP p, arr, nan)."""
+    """For arr_pre_post: {returned variable: set of relations (LT / EQ / GT of t to the peak) of the samples it KEEPS (the others are NaN)}."""
+    peak = fi.params[1] if len(fi.params) > 1 else "indx_peak"
     keep = {}
     form = None
-    # form B
-    for d in du.defs:
-        if d.kind == "assign" and isinstance(d.value, ast.Call) and call_name(d.value) == "where" and len(d.value.args) == 3 and "nan" in src(d.value.args[2]):
-            c = d.value.args[0]
-            if isinstance(c, ast.Compare) and len(c.ops) == 1:
-                l, r = expand_name(du, c.left, d.stmt), expand_name(du, c.comparators[0], d.stmt)
-                lt, rt = src(l), src(r)
-                t_left = "arange" in lt and "shape[1]" in lt
-                p_right = "indx_peak" in rt or "indx_peak" in src(c.comparators[0])
-                if t_left and p_right:
-                    keep[d.var] = {ast.Lt: "<", ast.LtE: "<=", ast.Gt: ">", ast.GtE: ">="}.get(type(c.ops[0]))
-                    form = "broadcast"
-    if keep:
-        return keep, form
-    # form A
-    cs = [c for c in find(fi.node, ast.Call, nested=False) if call_name(c) == "cumsum"]
-    okm = bool(cs) and const_value(kwarg(cs[0], "axis")) == (True, 1)
-    oh = [st for st in walk_function(fi.node) if isinstance(st, ast.Assign) and isinstance(st.targets[0], ast.Subscript) and loc_name(st.targets[0].value) == "arr_mask"
-          and const_value(st.value) == (True, 1)]
-    okm = okm and bool(oh) and isinstance(oh[0].targets[0].slice, ast.Tuple) and loc_name(oh[0].targets[0].slice.elts[1]) == "indx_peak"
-    if not okm:
+    rets = returns_of(fi.node)
+    if not rets or not isinstance(rets[-1].value, ast.Tuple):
         return {}, None
-    for st in walk_function(fi.node):
-        if isinstance(st, ast.Assign) and isinstance(st.targets[0], ast.Subscript) and "nan" in src(st.value):
-            arr = loc_name(st.targets[0].value)
-            sel = expand_name(du, st.targets[0].slice, st)
-            cmps = find(sel, ast.Compare)
-            if cmps and loc_name(cmps[0].left) == "arr_mask":
-                v = const_value(cmps[0].comparators[0])[1]
-                # cumulative one-hot: 0 for t < p, 1 for t >= p ; NaN where mask == v  => kept where mask != v
-                keep[arr] = "<" if v == 1 else ">=" if v == 0 else None
-    return keep, "cumulative-mask"
+    for e in rets[-1].value.elts:
+        nm = loc_name(e)
+        if nm is None:
+            continue
+        ds = [d for d in du.strong_reaching(nm, rets[-1]) if d.kind == "assign" and d.value is not None]
+        if len(ds) != 1:
+            continue
+        v = ds[0].value
+        if isinstance(v, ast.Call) and call_name(v) == "where" and len(v.args) == 3:
+            m = _rel(du, v.args[0], ds[0].stmt, peak)
+            if isinstance(m, frozenset):
+                nan1, nan2 = "nan" in src(v.args[1]), "nan" in src(v.args[2])
+                if nan2 and not nan1:
+                    keep[nm], form = m, "np.where"
+                elif nan1 and not nan2:
+                    keep[nm], form = ALL3 - m, "np.where"
+            continue
+        # a copy of the data with NaN stored on a selection
+        dropped = frozenset()
+        n_st = 0
+        for st in walk_function(fi.node):
+            if isinstance(st, ast.Assign) and isinstance(st.targets[0], ast.Subscript) and loc_name(st.targets[0].value) == nm and "nan" in src(st.value):
+                sel, sel_at = st.targets[0].slice, st
+                for _ in range(4):   # follow the selector to the statement that defined it (the mask may be deleted / rebound later)
+                    if isinstance(sel, ast.Name):
+                        dd = du.strong_reaching(sel.id, sel_at)
+                        if len(dd) == 1 and dd[0].kind == "assign" and dd[0].value is not None and dd[0].unpack_index is None:
+                            sel, sel_at = dd[0].value, dd[0].stmt
+                            continue
+                    break
+                if isinstance(sel, ast.Call) and call_name(sel) in ("where", "nonzero") and len(sel.args) == 1:
+                    sel = sel.args[0]
+                m = _rel(du, sel, sel_at, peak)
+                if not isinstance(m, frozenset):
+                    dropped = None
+                    break
+                dropped = dropped | m
+                n_st += 1
+        if dropped is not None and n_st:
+            keep[nm], form = ALL3 - dropped, "NaN stores"
+    return keep, form
 
 
 def d4_pre_post(ctx):
@@ -247,14 +367,18 @@ def d4_pre_post(ctx):
     first, second = [loc_name(e) for e in rets[-1].value.elts]
     keep, form = _keep_sets(fi, du)
     if form is None:
-        raise AnalysisError("arr_pre_post: neither the cumulative-mask nor the broadcast np.where form recognised")
-    ctx.check(keep.get(first) == "<", fi, rets[-1], f"[{form}] first result keeps t {keep.get(first)} peak", "the pre-peak array keeps exactly the samples before the peak",
-              f"the first returned array keeps samples t {keep.get(first)} peak, expected t < peak", key="pre-set", name_free=(form == "broadcast"))
-    ctx.check(keep.get(second) == ">=", fi, rets[-1], f"[{form}] second result keeps t {keep.get(second)} peak", "the post-peak array keeps the peak sample and everything after it",
-              f"the second returned array keeps samples t {keep.get(second)} peak, expected t >= peak: "
+        raise AnalysisError("arr_pre_post: neither NaN stores on a mask nor np.where(mask, .., nan) recognised")
+    def show(k):
+        return "{" + ", ".join({"LT": "t < peak", "EQ": "t == peak", "GT": "t > peak"}[x] for x in ("LT", "EQ", "GT") if k and x in k) + "}" if k is not None else "?"
+    if first not in keep or second not in keep:
+        raise AnalysisError("arr_pre_post: the samples kept by the returned arrays could not be evaluated")
+    ctx.check(keep.get(first) == frozenset({"LT"}), fi, rets[-1], f"[{form}] first result keeps {show(keep.get(first))}", "the pre-peak array keeps exactly the samples before the peak",
+              f"the first returned array keeps samples {show(keep.get(first))}, expected t < peak", key="pre-set", name_free=True)
+    ctx.check(keep.get(second) == frozenset({"EQ", "GT"}), fi, rets[-1], f"[{form}] second result keeps {show(keep.get(second))}", "the post-peak array keeps the peak sample and everything after it",
+              f"the second returned array keeps samples {show(keep.get(second))}, expected t >= peak: "
               + ("the peak sample itself is dropped, so the post-peak row is empty (all NaN) when the peak is the last sample - the trough search then fails or, with a "
-                 "NaN-tolerant argmax, silently returns index 0 (a trough before the peak)" if keep.get(second) == ">" else "pre/post arrays are swapped or overlap"),
-              key="post-set", name_free=(form == "broadcast"))
+                 "NaN-tolerant argmax, silently returns index 0 (a trough before the peak)" if keep.get(second) == frozenset({"GT"}) else "pre/post arrays are swapped or overlap"),
+              key="post-set", name_free=True)
     for q, want_slot in ((MOD + ".find_tip", 0), (MOD + ".find_trough", 1)):
         f2 = repo.fn(q)
         du2 = DefUse(f2.node)
@@ -332,7 +456,66 @@ def dS_shared(ctx):
                             'features of a later batch depend on an earlier batch')
 
 
+NARROW = {"int8": 127, "uint8": 255, "byte": 127, "ubyte": 255, "bool": 1, "bool_": 1}
+ACCUM = ("cumsum", "sum", "nansum", "count_nonzero", "nancumsum", "cumprod", "arange")
+
+
+def _dtype_name(e):
+    if e is None:
+        return None
+    if isinstance(e, ast.Constant) and isinstance(e.value, str):
+        return e.value
+    if isinstance(e, ast.Attribute):
+        return e.attr
+    if isinstance(e, ast.Name):
+        return e.id
+    return None
+
+
+def d6_accumulators(ctx):
+    ctx.rule("D6", "counts and running counts along the time axis are accumulated in an integer type that holds the window length (windows up to 200 samples: "
+                   "an 8-bit accumulator wraps after 127 / 255 set samples); a one-hot mask (at most one flag per row) may use any width")
+    repo = ctx.repo
+    n = 0
+    for q in sorted(reachable(repo, ROOT)):
+        fi = repo.fn(q)
+        if not isinstance(fi.node, (ast.FunctionDef, ast.AsyncFunctionDef)):
+            continue
+        du = None
+        for c in find(fi.node, ast.Call, nested=False):
+            nm = call_name(c)
+            dt = None
+            target = None
+            if nm in ACCUM:
+                dt = _dtype_name(kwarg(c, "dtype"))
+                target = c
+            elif nm == "astype" and isinstance(c.func, ast.Attribute) and c.args and isinstance(c.func.value, ast.Call) and call_name(c.func.value) in ACCUM:
+                dt = _dtype_name(c.args[0])
+                target = c.func.value
+            if dt not in NARROW or target is None:
+                continue
+            n += 1
+            du = du or DefUse(fi.node)
+            bounded = False
+            why = ""
+            if call_name(target) != "arange" and target.args:
+                peak = None
+                # which name is the per-row peak index here?  any 1-D index used in a one-hot store; _rel finds it through the mask's own definition
+                for cand in [x.arg for x in fi.node.args.args] + sorted({nn.id for nn in ast.walk(fi.node) if isinstance(nn, ast.Name)}):
+                    m = _rel(du, target.args[0], c, cand)
+                    if m == frozenset({"EQ"}):
+                        bounded, why, peak = True, f"one-hot mask at `{cand}`: the count never exceeds 1", cand
+                        break
+            ctx.check(bounded, fi, c, c, f"{NARROW[dt]}-limited accumulator is safe: {why}",
+                      f"`{src(c)[:90]}` accumulates along time in {dt} (max {NARROW[dt]}): once more than {NARROW[dt]} samples are set in a row the count wraps around, and the "
+                      f"position derived from it (argmax / comparison with a threshold) points at the wrong sample for windows longer than {NARROW[dt] + 1} samples",
+                      key=f"accum:{q.rsplit('.', 1)[-1]}:{norm(c)[:40]}", name_free=True)
+    if n == 0:
+        ctx.ok(repo.fn(ROOT), repo.fn(ROOT).node, "no narrow accumulator", "no count is accumulated in an 8-bit type", key="accum:none")
+
+
 def run(ctx):
+    ctx.run(d6_accumulators)
     ctx.run(dS_shared)
     ctx.run(d1_recovery_bound)
     ctx.run(d2_axis)
